@@ -372,13 +372,13 @@ def run_case(case, workdir):
     # integer; every lattice value also as np.float64 and (where exact) np.float32 - the slice must be the one of the float
     for m in positions:
         p0 = sm.pos_of(m)
-        forms = [("np.float64", np.float64(p0))]
+        forms = [("np.float64", np.float64(p0)), ("0-d array", np.array(p0))]
         if float(np.float32(p0)) == p0:
             forms.append(("np.float32", np.float32(p0)))
         if p0 == int(p0) and abs(p0) < 2 ** 40:
             forms += [("int", int(p0)), ("np.int64", np.int64(int(p0)))]
-        if len(forms) == 1 and m % 4:
-            continue
+        if len(forms) == 2 and m % 4:
+            forms = forms[1:] if m % 2 else forms[:1]
         st0, base = do(["A", "G", "grid_level"], None, True, p0, 0)
         for tag_, pv in forms:
             st, val = do(["A", "G", "grid_level"], None, True, pv, 0)
@@ -391,6 +391,29 @@ def run_case(case, workdir):
                            for k in base if isinstance(base[k], np.ndarray))
                 if not same:
                     rec.fail("position_spelling", sub, "the slice differs from the slice at the same position given as a float")
+    # magnitude: the same plotfile with every field scaled by 2^-70 (exact in binary; trace quantities of order 1e-21) - interpolation
+    # is linear, so every pixel must be the scaled pixel bit for bit, at positions between cell centres as well as on them
+    if isinstance(desc.get("payload"), list) and not any("*" in p_ or "hconst" in p_ for p_ in desc["payload"][:3]):
+        SC = 2.0 ** -70
+        d_small = dict(desc, payload=[(p_ + "*" + repr(SC)) if i_ < 3 else p_ for i_, p_ in enumerate(desc["payload"])])
+        path_s, ref_s = build(d_small, workdir, "plt_small", prehistory=False, pathform="plain")
+        for m in positions[1::max(1, len(positions) // 6)]:
+            p0 = sm.pos_of(m)
+            st0, base = do(["A", "G", "C"], None, bool(m % 2), p0, 0)
+            with vpool.controlled():
+                with poisoned(MODS, 0):
+                    st, val = call(lambda: Mandoline(path_s, fields=["A", "G", "C"], serial=bool(m % 2), verbose=0).slice(normal=n, pos=p0, fformat="return"))
+            rec.exe([dh, "scaled", m])
+            sub = {"normal": n, "m": m, "pos": p0, "fields": ["A", "G", "C"], "limit_level": None, "history": "the same data scaled by 2^-70"}
+            if st0 == "exc" or st == "exc":
+                if st0 != st:
+                    rec.fail("raised", sub, exc_text(val if st == "exc" else base))
+                continue
+            for k_ in ("A", "G", "C"):
+                a_, b_ = np.asarray(base[k_], dtype=float) * SC, np.asarray(val[k_], dtype=float)
+                if a_.shape != b_.shape or not np.array_equal(a_.view(np.uint64), b_.view(np.uint64)):
+                    rec.fail("magnitude_dependent", dict(sub, field=k_), "the slice of the scaled field is not the scaled slice")
+                    break
     # positions a few ulps / 1e-9 cell beside every lattice position (cell centres, faces, quarter points)
     dxf = ref.dx[nlev - 1][n]
     for m in positions:
